@@ -326,6 +326,19 @@ def run(prop, tier, seed, known):
                         fails.append('pattern swap (estimate = copy of the reference plus a variant): %s=%r vs %s=%r' % (a_, a1[a_], b_, a2[b_]))
                 if abs(a1['F_3'] - a2['F_3']) > 1e-9:
                     fails.append('pattern swap (estimate = copy of the reference plus a variant): F_3 %r vs %r' % (a1['F_3'], a2['F_3']))
+            # swap when one estimated pattern is relevant to two reference patterns (unequal multiplicities among the relevant pairs)
+            bA = [[(float(t), 60.0 + t) for t in range(4)], [(float(t) + 10.0, 60.0 + t) for t in range(4)]]
+            def vary(pt, k_):
+                q = [list(o) for o in pt]
+                q[0][k_] = (q[0][k_][0] + 0.5, q[0][k_][1])
+                return q
+            bZ = [[(float(t), 72.0 - t) for t in range(3)], [(float(t) + 20.0, 72.0 - t) for t in range(3)]]
+            r_ = [bA, vary(bA, rng.randint(0, 1)), bZ]
+            e_ = [vary(bA, rng.randint(2, 3)), [list(o) for o in bZ]]
+            o1 = guard('pattern.occurrence_FPR (shared estimate)', lambda: pattern.occurrence_FPR(r_, e_, thres=0.75))
+            o2 = guard('pattern.occurrence_FPR (shared estimate, swapped)', lambda: pattern.occurrence_FPR(e_, r_, thres=0.75))
+            if o1 is not None and o2 is not None and (abs(o1[1] - o2[2]) > 1e-9 or abs(o1[2] - o2[1]) > 1e-9 or abs(o1[0] - o2[0]) > 1e-9):
+                fails.append('pattern swap (one estimated pattern relevant to two reference patterns): occurrence (F, P, R) = %s vs swapped %s' % (tuple(float(x) for x in o1), tuple(float(x) for x in o2)))
             # C04: the first-n scores are the establishment recall / three-layer precision of the first n estimated patterns
             many = ep + [pat() for _ in range(2)]
             for nn in (1, 2, 3):
